@@ -20,7 +20,12 @@ type verifScript struct {
 	record bool
 	cnt    int64
 	pkgs   []string // function-name substrings identifying garble code for call-site attribution
+	mark   int      // draw count at the start of the current unit of work (see budget)
 }
+
+// verifDrawBudget bounds the draws of one unit of work: a near-constant scripted stream can make a
+// retry-until-distinct loop spin forever, which says nothing about a real generator (reported as inconclusive).
+const verifDrawBudget = 300000
 
 func newVerifScript(base string, over map[int]int64, record bool, pkgs ...string) *verifScript {
 	s := &verifScript{base: base, over: over, record: record, pkgs: pkgs}
@@ -36,6 +41,9 @@ func (s *verifScript) Seed(int64) {}
 func (s *verifScript) Int63() int64 {
 	i := s.n
 	s.n++
+	if s.n-s.mark > verifDrawBudget {
+		panic("verif: draw budget exceeded")
+	}
 	var v int64
 	switch {
 	case s.prng != nil:
